@@ -18,6 +18,13 @@ def Backed (s : State) : Prop := ∀ d, balance s depositAddr d = totalDeposits 
 /-- The recorded supply is the sum of all balances (nothing is created or destroyed unnoticed). -/
 def SupplyOK (s : State) : Prop := ∀ d, supplyOf s d = bankTotal s d
 
+theorem getPlan_mem {s : State} {id : Nat} {p : Plan} (h : getPlan s id = some p) :
+    s.planActive.get id = some p ∨ s.planInactive.get id = some p := by
+  unfold getPlan at h
+  cases ha : s.planActive.get id with
+  | some a => simp only [ha] at h; left; exact h
+  | none => simp only [ha] at h; right; exact h
+
 structure MoneyInv (s : State) : Prop where
   backed : Backed s
   depNodup : Tbl.Nodup s.deposits
@@ -25,6 +32,6 @@ structure MoneyInv (s : State) : Prop where
   bankNodup : Tbl.Nodup s.bank
   supplyOK : SupplyOK s
   /-- no plan's provider is the escrow account (providers register by signing, D2) -/
-  provOK : ∀ id p, getPlan s id = some p → p.prov ≠ depositAddr
+  provOK : ∀ id p, (s.planActive.get id = some p ∨ s.planInactive.get id = some p) → p.prov ≠ depositAddr
 
 end Hub.Model
